@@ -134,19 +134,21 @@ class G:
     def order(self):
         return [self.start] + [n for n in self.nts if n != self.start]
 
-    def text(self, inline=False, extra_rules="", extra_terms="", prod_meta=None):
+    def text(self, inline=False, extra_rules="", extra_terms="", prod_meta=None, named=False):
         """parglare grammar text.  inline=True writes string terminals whose name
-        equals their text inline; everything else is declared."""
+        equals their text inline; everything else is declared.  named=True gives
+        every right-hand-side symbol a named match x<i>=."""
         lines = []
         for n in self.order():
             alts = []
             for pi, r in self.by[n]:
                 syms = []
-                for s in r:
+                for i, s in enumerate(r):
+                    pre = "x%d=" % i if named else ""
                     if not is_nt(s) and inline and self.tdefs[s].kind == "str" and self.tdefs[s].text == s and self._plain(s):
-                        syms.append('"%s"' % s)
+                        syms.append(pre + '"%s"' % s)
                     else:
-                        syms.append(s)
+                        syms.append(pre + s)
                 a = " ".join(syms) if syms else "EMPTY"
                 if prod_meta and pi in prod_meta:
                     a += " {%s}" % prod_meta[pi]
